@@ -15,7 +15,7 @@ VEC, HASH = 'vec_graph::Graph', 'hash_graph::Graph'
 GL = 'graph::GraphLike'
 PAR, EXPR, PHASE = 'params::Parity', 'params::Expr', 'phase::Phase'
 INLINE = ('vec_graph::', '<vec_graph::', 'hash_graph::', '<hash_graph::', 'graph::', '<graph::', 'basic_rules::', 'phase::', '<phase::', '<&phase::',
-          'params::', '<params::', '<&params::', 'simplify::')
+          'params::', '<params::', '<&params::', 'simplify::', 'decompose::', '<decompose::')
 
 
 # ----------------------------------------------------------------------------------------------------------------- exact numbers
@@ -193,6 +193,13 @@ class FactorMap(minirust.Obj):
     def mr_clone(self):
         return FactorMap(self.items)
 
+    def __eq__(self, o):
+        return isinstance(o, FactorMap) and len(o.items) == len(self.items) and all(any(k == k2 and v == v2 for k2, v2 in o.items) for k, v in self.items)
+
+    def __ne__(self, o):
+        return not self == o
+    __hash__ = None
+
 
 def interp(facts, fuel=400000):
     it = minirust.Interp(fuel=fuel, facts=facts, inline=lambda c: c.startswith(INLINE))
@@ -218,7 +225,14 @@ def interp(facts, fuel=400000):
                 if isinstance(a, int) and not isinstance(a, bool):
                     return HScalar(Qw((a, 0, 0, 0)))
                 return HScalar(expi(phase_value(a)))
+            if last == 'new' and len(e['args']) == 2:
+                co, pw = args()
+                if not (isinstance(co, list) and len(co) == 4 and all(isinstance(x, int) and not isinstance(x, bool) for x in co) and isinstance(pw, int)):
+                    raise minirust.NoEval('Scalar4::new(%r, %r)' % (co, pw))
+                return HScalar(Qw(co) * Qw((Fr(2) ** pw, 0, 0, 0)))
             raise minirust.NoEval('scalar constructor %s' % c)
+        if t == PHASE and last in ('from', 'into') and len(e['args']) == 1 and ('convert::From' in c or 'convert::Into' in c):
+            return it.host_into(args()[0], PHASE)
         return ratsem.host_call(c, e, args)
     it.host_call = hc
 
@@ -369,6 +383,107 @@ def read(be):
 # ----------------------------------------------------------------------------------------------------------------- denotation
 def tensor(d, sigma):
     """the linear map of the diagram under the assignment sigma of its boolean variables: {boundary bits (inputs then outputs): Qw}, zero entries
+    omitted.  Conventions (standard, and those of the library): a Z spider is sum_x e^{i pi alpha x} |x..x><x..x|, an X spider is a Z spider with a
+    Hadamard on every leg, a Hadamard edge is (1/sqrt2) (-1)^{xy}.  Computed by merging the vertices joined by plain (after colour change) edges into
+    classes and summing over the free classes in Gray-code order, with the amplitude kept as eight counters of powers of e^{i pi/4}."""
+    bnd = list(d.inputs) + list(d.outputs)
+    if sorted(bnd, key=str) != sorted((k for k, (t, _p, _v) in d.v.items() if t == 'B'), key=str) or len(set(bnd)) != len(bnd):
+        raise minirust.NoEval('boundary vertices that are not exactly the inputs and outputs')
+    names = sorted(d.v, key=str)
+    for k in names:
+        if d.v[k][0] not in ('B', 'Z', 'X'):
+            raise minirust.NoEval('vertex type %s' % d.v[k][0])
+    parent = dict((k, k) for k in names)
+
+    def find(x):
+        while parent[x] != x:
+            parent[x] = parent[parent[x]]
+            x = parent[x]
+        return x
+    hk = []
+    nh = 0
+    for e, t in d.e.items():
+        if len(e) != 2:
+            raise minirust.NoEval('self loop')
+        a, b = tuple(e)
+        if t not in ('N', 'H'):
+            raise minirust.NoEval('edge type %s' % t)
+        h = (t == 'H') ^ (d.v[a][0] == 'X') ^ (d.v[b][0] == 'X')
+        if h:
+            hk.append((a, b))
+            nh += 1
+        else:
+            parent[find(a)] = find(b)
+    scal = d.scalar
+    for ex, q in d.factors:
+        if all((sum(sigma[x] for x in vs) + (1 if f else 0)) % 2 == 1 for vs, f in ex):
+            scal = scal * q
+    scal = scal * sqrt2_pow(-nh)
+    if scal.is_zero():
+        return {}
+    classes = sorted(set(find(k) for k in names), key=str)
+    idx = dict((c, i) for i, c in enumerate(classes))
+    p8 = [0] * len(classes)
+    for k in names:
+        t, p, vs = d.v[k]
+        if t != 'B':
+            q = (Fr(p) + sum(sigma[x] for x in vs)) % 2
+            if (q * 4).denominator != 1:
+                raise minirust.NoEval('the phase %s is not a multiple of pi/4' % q)
+            p8[idx[find(k)]] = (p8[idx[find(k)]] + int(q * 4)) % 8
+    adj = [0] * len(classes)          # bit mask of the classes joined to this one by an odd number of Hadamard kernels
+    for a, b in hk:
+        ia, ib = idx[find(a)], idx[find(b)]
+        if ia == ib:
+            p8[ia] = (p8[ia] + 4) % 8
+        else:
+            adj[ia] ^= 1 << ib
+            adj[ib] ^= 1 << ia
+    bclass = [idx[find(b)] for b in bnd]
+    bound = sorted(set(bclass))
+    free = [i for i in range(len(classes)) if i not in set(bound)]
+    nf = len(free)
+    out = {}
+    for bb in itertools.product((0, 1), repeat=len(bnd)):
+        val = {}
+        ok = True
+        for c, bit in zip(bclass, bb):
+            if val.setdefault(c, bit) != bit:
+                ok = False
+                break
+        if not ok:
+            continue
+        x = 0
+        for c, bit in val.items():
+            if bit:
+                x |= 1 << c
+        e = 0
+        for c, bit in val.items():
+            if bit:
+                e += p8[c] + 2 * ((adj[c] & x).bit_count())       # each pair of set bound classes is seen twice: 2 * 2 = 4 per pair
+        e %= 8
+        counts = [0] * 8
+        counts[e] += 1
+        g = 0
+        for step in range(1, 1 << nf):
+            j = (step & -step).bit_length() - 1
+            c = free[j]
+            delta = p8[c] + 4 * ((adj[c] & x).bit_count())
+            if (x >> c) & 1:
+                x &= ~(1 << c)
+                e = (e - delta) % 8
+            else:
+                e = (e + delta) % 8
+                x |= 1 << c
+            counts[e] += 1
+        tot = Qw((counts[0] - counts[4], counts[1] - counts[5], counts[2] - counts[6], counts[3] - counts[7]))
+        if not tot.is_zero():
+            out[bb] = tot * scal
+    return out
+
+
+def tensor_slow(d, sigma):
+    """(reference implementation, kept for the self-check of the fast one) the linear map of the diagram under the assignment sigma of its boolean variables: {boundary bits (inputs then outputs): Qw}, zero entries
     omitted.  Conventions (standard, and those of the library): a Z spider is sum_x e^{i pi alpha x} |x..x><x..x|, an X spider is a Z spider with a
     Hadamard on every leg, a Hadamard edge is (1/sqrt2) (-1)^{xy}."""
     bnd = list(d.inputs) + list(d.outputs)
@@ -524,16 +639,17 @@ def family_one_core():
                                             yield D(v3, ee, [], ['o1', 'o2', 'o3']), ('c',), ('n1', 'n2', 'n3')
 
 
-def family_two_cores():
-    """two core spiders with every type / phase / edge between them, 0..2 neighbours attached to either or both, a boundary on the first core or not"""
-    for t0, t1 in (('Z', 'Z'), ('Z', 'X'), ('X', 'X')):
-        for p0 in P4_:
+def family_two_cores(boundary_only=False):
+    """two core spiders with every type / phase / edge between them, 0..2 neighbours attached to either or both, a boundary on the first core or not
+    (boundary_only: the sub-family of two Hadamard-connected Z cores with a boundary on the first, where the boundary rules can match)"""
+    for t0, t1 in ((('Z', 'Z'),) if boundary_only else (('Z', 'Z'), ('Z', 'X'), ('X', 'X'))):
+        for p0 in (P5_ if boundary_only else P4_):
             for p1 in P4_:
                 for v0, v1 in (((), ()), ((0,), ()), ((0,), (1,))):
-                    for cc in (None, 'N', 'H'):
+                    for cc in (('H',) if boundary_only else (None, 'N', 'H')):
                         core = {'c0': (t0, p0, v0), 'c1': (t1, p1, v1)}
                         ce = {('c0', 'c1'): cc} if cc else {}
-                        for cb in (None, 'N', 'H'):
+                        for cb in (('N', 'H') if boundary_only else (None, 'N', 'H')):
                             vb = dict(core)
                             eb = dict(ce)
                             outs = []
@@ -604,43 +720,73 @@ def run_family(facts, ty, fam, rules, stride=1, offset=0, limit=None):
         if limit is not None and stats['diagrams'] >= limit:
             break
         stats['diagrams'] += 1
+        try:
+            be0, m = build(facts, ty, d)
+            before = read(be0)
+        except minirust.NoEval as ex:
+            stats['declined'] += 1
+            declined.setdefault('build: ' + str(ex)[:70], ('-', d.show(), ()))
+            continue
+        vars_ = before.variables()
+        sigmas = [dict(zip(vars_, bits)) for bits in itertools.product((0, 1), repeat=len(vars_))]
+        t_before = None
         for rule, (ar, _cs) in rules.items():
             for args in arg_tuples(d, cores, others, ar):
                 stats['applications'] += 1
+                be = be0.clone()
                 try:
-                    what, msg = apply_rule(facts, ty, d, rule, args)
+                    try:
+                        r = be.fn(rule, *[m[a] for a in args])
+                    except minirust.Panics as ex:
+                        bad.append((rule, d.show(), args, 'panics: %s' % ex))
+                        continue
+                    if r is False:
+                        stats['rejected'] += 1
+                        if be.g != be0.g:
+                            bad.append((rule, d.show(), args, 'the rule returns false but changes the diagram to %s' % read(be).show()))
+                        continue
+                    if r is not True:
+                        raise minirust.NoEval('the rule returned %r' % (r,))
+                    stats['accepted'] += 1
+                    stats['per_rule_accepted'][rule] = stats['per_rule_accepted'].get(rule, 0) + 1
+                    after = read(be)
+                    if after.inputs != before.inputs or after.outputs != before.outputs:
+                        bad.append((rule, d.show(), args, 'the inputs / outputs change from %s / %s to %s / %s' % (before.inputs, before.outputs, after.inputs, after.outputs)))
+                        continue
+                    if set(after.variables()) - set(vars_):
+                        bad.append((rule, d.show(), args, 'the rewritten diagram mentions the variables %s the original does not have' % sorted(set(after.variables()) - set(vars_))))
+                        continue
+                    if t_before is None:
+                        t_before = [tensor(before, sg) for sg in sigmas]
+                    for sg, t0 in zip(sigmas, t_before):
+                        t1 = tensor(after, sg)
+                        if t0 != t1:
+                            bad.append((rule, d.show(), args, '%sthe map changes from %s to %s (rewritten diagram %s, scalar %s)'
+                                        % (('under the assignment %s ' % sg) if sg else '', _showt(t0), _showt(t1), after.show(), after.scalar.c)))
+                            break
                 except minirust.NoEval as ex:
                     stats['declined'] += 1
                     declined.setdefault(str(ex)[:80], (rule, d.show(), args))
-                    continue
-                if what == 'panic':
-                    bad.append((rule, d.show(), args, 'panics: %s' % msg))
-                    continue
-                stats[what] += 1
-                if what == 'accepted':
-                    stats['per_rule_accepted'][rule] = stats['per_rule_accepted'].get(rule, 0) + 1
-                if msg:
-                    bad.append((rule, d.show(), args, msg))
     stats['declined_reasons'] = declined
     return stats, bad
 
 
-FAMILIES = {'one-core': family_one_core, 'two-cores': family_two_cores, 'gadgets': family_gadgets}
+FAMILIES = {'one-core': family_one_core, 'two-cores': family_two_cores, 'gadgets': family_gadgets, 'boundary': lambda: family_two_cores(True)}
 _G = {}
 
 
 def _job(job):
     name, ty, stride, offset, sub = job
     facts, rules = _G['facts'], _G['rules']
-    fam = (x for i, x in enumerate(FAMILIES[name]()) if i % sub[0] == sub[1])
+    fam = (x for i, x in enumerate(y for y in FAMILIES[name]() if (not _G.get('vars_only') or y[0].variables())) if i % sub[0] == sub[1])
     st, bad = run_family(facts, ty, fam, rules, stride=stride, offset=offset)
     return name, ty, st, bad[:50]
 
 
-def run_all(facts, plan, procs=8):
+def run_all(facts, plan, procs=8, vars_only=False):
     """plan: [(family, back end, take every k-th diagram)] -> (totals, findings, declined reasons)"""
     rules = rule_table(facts)
-    _G['facts'], _G['rules'] = facts, rules
+    _G['facts'], _G['rules'], _G['vars_only'] = facts, rules, vars_only
     jobs = []
     for name, ty, every in plan:
         for off in range(procs):
@@ -670,3 +816,290 @@ def run_all(facts, plan, procs=8):
         for k, v in st['declined_reasons'].items():
             declined.setdefault(k, v)
     return tot, bad, declined
+
+
+# ----------------------------------------------------------------------------------------------------------------- simplifiers
+def simplifier_table(facts):
+    """every `fn s(g: &mut impl GraphLike) -> bool` of simplify.rs"""
+    return sorted(k for k, f in facts['fns'].items() if k.startswith('simplify::') and len(f.get('inputs') or []) == 1 and 'GraphLike' in f['inputs'][0]
+                  and f['inputs'][0].startswith('&mut') and (f.get('output') or '').strip() == 'bool')
+
+
+def family_circuitlike():
+    """graph-like diagrams of the kind the simplifiers are made for: two or three wires (input - spiders - output) whose spiders carry Clifford+T phases
+    and are joined by Hadamard edges across wires, plus phase gadgets"""
+    phases = (0, Fr(1, 4), Fr(1, 2), 1)
+    for pa, pb, pc in itertools.product(phases, repeat=3):
+        for cross in itertools.product((None, 'H'), repeat=3):
+            for wire in ('N', 'H'):
+                for gad in (None, Fr(1, 4), Fr(3, 4)):
+                    v = {'i0': ('B', 0, ()), 'i1': ('B', 0, ()), 'o0': ('B', 0, ()), 'o1': ('B', 0, ()),
+                         'a': ('Z', pa, ()), 'b': ('Z', pb, ()), 'c': ('Z', pc, ()), 'd': ('Z', 0, ())}
+                    e = {('i0', 'a'): 'N', ('a', 'b'): wire, ('b', 'o0'): 'N', ('i1', 'c'): 'N', ('c', 'd'): 'H', ('d', 'o1'): wire}
+                    for (x, y), t in zip((('a', 'c'), ('b', 'd'), ('a', 'd')), cross):
+                        if t:
+                            e[(x, y)] = t
+                    if gad is not None:
+                        v['h'] = ('Z', 0, ())
+                        v['l'] = ('Z', gad, ())
+                        e[('h', 'l')] = 'H'
+                        e[('h', 'a')] = 'H'
+                        e[('h', 'd')] = 'H'
+                    yield D(v, e, ['i0', 'i1'], ['o0', 'o1']), ('a', 'b'), ('c', 'd')
+
+
+FAMILIES['circuit-like'] = family_circuitlike
+
+
+def _simp_job(job):
+    name, ty, stride, offset, sub = job
+    facts, simps = _G['facts'], _G['simps']
+    st = {'diagrams': 0, 'runs': 0, 'changed': 0, 'declined': 0, 'per_simp_changed': {}}
+    bad, declined = [], {}
+    for i, (d, _c, _o) in enumerate(x for j, x in enumerate(FAMILIES[name]()) if j % sub[0] == sub[1]):
+        if i % stride != offset:
+            continue
+        st['diagrams'] += 1
+        try:
+            be0, _m = build(facts, ty, d)
+            before = read(be0)
+        except minirust.NoEval as ex:
+            st['declined'] += 1
+            declined.setdefault('build: ' + str(ex)[:70], ('-', d.show()))
+            continue
+        vars_ = before.variables()
+        sigmas = [dict(zip(vars_, bits)) for bits in itertools.product((0, 1), repeat=len(vars_))]
+        t_before = None
+        for sk in simps:
+            be = be0.clone()
+            st['runs'] += 1
+            try:
+                try:
+                    r = be.fn(sk)
+                except minirust.Panics as ex:
+                    bad.append((sk, d.show(), (), 'panics: %s' % ex))
+                    continue
+                if be.g == be0.g:
+                    if r is True:
+                        pass        # (reports a match but leaves the diagram as it was: not a clause of the property)
+                    continue
+                st['changed'] += 1
+                st['per_simp_changed'][sk] = st['per_simp_changed'].get(sk, 0) + 1
+                after = read(be)
+                # (a simplifier may renumber the vertices when it packs the graph: inputs and outputs correspond by position)
+                if len(after.inputs) != len(before.inputs) or len(after.outputs) != len(before.outputs):
+                    bad.append((sk, d.show(), (), 'the number of inputs / outputs changes from %d / %d to %d / %d' % (len(before.inputs), len(before.outputs), len(after.inputs), len(after.outputs))))
+                    continue
+                if t_before is None:
+                    t_before = [tensor(before, sg) for sg in sigmas]
+                for sg, t0 in zip(sigmas, t_before):
+                    t1 = tensor(after, sg)
+                    if t0 != t1:
+                        bad.append((sk, d.show(), (), '%sthe map changes from %s to %s (simplified diagram %s, scalar %s)'
+                                    % (('under the assignment %s ' % sg) if sg else '', _showt(t0), _showt(t1), after.show(), after.scalar.c)))
+                        break
+            except minirust.NoEval as ex:
+                st['declined'] += 1
+                declined.setdefault(str(ex)[:80], (sk, d.show()))
+    st['declined_reasons'] = declined
+    return name, ty, st, bad[:50]
+
+
+def run_simplifiers(facts, plan, procs=8):
+    """plan: [(family, back end, take every k-th diagram)] -> (totals, findings [(family, back end, simplifier, diagram, (), what)], declined reasons)"""
+    simps = simplifier_table(facts)
+    _G['facts'], _G['simps'] = facts, simps
+    jobs = [(name, ty, procs, off, (every, 0)) for name, ty, every in plan for off in range(procs)]
+    pool = None
+    if procs > 1:
+        try:
+            import multiprocessing
+            pool = multiprocessing.get_context('fork').Pool(procs)
+        except Exception:
+            pool = None
+    try:
+        results = pool.map(_simp_job, jobs, chunksize=1) if pool is not None else [_simp_job(j) for j in jobs]
+    finally:
+        if pool is not None:
+            pool.terminate()
+            pool.join()
+    tot = {'diagrams': 0, 'runs': 0, 'changed': 0, 'declined': 0, 'per_simp_changed': {}, 'simplifiers': len(simps)}
+    bad, declined = [], {}
+    for name, ty, st, b in results:
+        for k in ('diagrams', 'runs', 'changed', 'declined'):
+            tot[k] += st[k]
+        for r, n in st['per_simp_changed'].items():
+            tot['per_simp_changed'][r] = tot['per_simp_changed'].get(r, 0) + n
+        bad.extend((name, ty) + tuple(x) for x in b)
+        for k, v in st['declined_reasons'].items():
+            declined.setdefault(k, v)
+    return tot, bad, declined
+
+
+# ----------------------------------------------------------------------------------------------------------------- decomposition steps
+DRIVERS = [
+    ('decompose::BssTOnlyDriver', {'random_t': False}),
+    ('decompose::BssWithCatsDriver', {'random_t': False}),
+    ('decompose::SpiderCuttingDriver', {}),
+]
+T4 = (Fr(1, 4), Fr(3, 4), Fr(5, 4), Fr(7, 4))
+
+
+def family_tspiders():
+    """graph-like diagrams with k = 1..7 T-type spiders attached by Hadamard edges to two context spiders that carry the outputs; every attachment pattern of
+    the first three T spiders, a few phase patterns, with and without a Hadamard edge between the first two T spiders"""
+    for k in (1, 2, 3, 4, 5, 6, 7):
+        for pat in itertools.product((('n1',), ('n2',), ('n1', 'n2')), repeat=min(k, 3)):
+            for phs in (0, 1, 2):
+                for tt in ((None, 'H') if k >= 2 else (None,)):
+                    for ctx in ((0, 0), (Fr(1, 2), 1)):
+                        v = {'n1': ('Z', ctx[0], ()), 'n2': ('Z', ctx[1], ()), 'o1': ('B', 0, ()), 'o2': ('B', 0, ())}
+                        e = {('n1', 'o1'): 'N', ('n2', 'o2'): 'H'}
+                        for i in range(k):
+                            t = 't%d' % i
+                            v[t] = ('Z', T4[(i * phs + (phs > 1)) % 4], ())
+                            for x in (pat[i] if i < len(pat) else (('n1',) if i % 2 else ('n2',))):
+                                e[(t, x)] = 'H'
+                        if tt:
+                            e[('t0', 't1')] = 'H'
+                        yield D(v, e, [], ['o1', 'o2']), tuple('t%d' % i for i in range(k)), ('n1', 'n2')
+
+
+def family_cats():
+    """cat states: a Pauli centre (phase 0 or pi) joined by Hadamard edges to m = 3..6 T-type legs and to nothing else; every leg also hangs on a context
+    spider with an output; legs may be joined to one another"""
+    for m in (3, 4, 5, 6):
+        for cp in (0, 1):
+            for phs in (0, 1, 2):
+                for legedges in ((), (('l0', 'l1'),), (('l0', 'l1'), ('l1', 'l2')), (('l0', 'l2'),)):
+                    for pat in (0, 1, 2):
+                        v = {'c': ('Z', cp, ()), 'n1': ('Z', 0, ()), 'n2': ('Z', Fr(1, 2), ()), 'o1': ('B', 0, ()), 'o2': ('B', 0, ())}
+                        e = {('n1', 'o1'): 'N', ('n2', 'o2'): 'N'}
+                        for i in range(m):
+                            leg = 'l%d' % i
+                            v[leg] = ('Z', T4[(i * phs + (phs > 1)) % 4], ())
+                            e[('c', leg)] = 'H'
+                            att = (('n1',), ('n2',), ('n1', 'n2'))[(i + pat) % 3]
+                            for x in att:
+                                e[(leg, x)] = 'H'
+                        for a, b in legedges:
+                            e[(a, b)] = 'H'
+                        yield D(v, e, [], ['o1', 'o2']), ('c',) + tuple('l%d' % i for i in range(m)), ('n1', 'n2')
+
+
+FAMILIES['t-spiders'] = family_tspiders
+FAMILIES['cats'] = family_cats
+
+
+def tensor_sum(ds, sigma):
+    tot = {}
+    for d in ds:
+        for k, v in tensor(d, sigma).items():
+            tot[k] = tot.get(k, Q0) + v
+    return dict((k, v) for k, v in tot.items() if not v.is_zero())
+
+
+def decomp_step(facts, ty, d, driver):
+    """one step of a driver on the diagram -> (name of the chosen decomposition, number of terms, '' | what is wrong)"""
+    be, _m = build(facts, ty, d)
+    before = read(be)
+    drv = dict({'__struct__': driver[0]}, **driver[1])
+    it = interp(facts, 3000000)
+    it.self_ty.append(ty)
+    dec = it.local_call('<%s as decompose::Driver>::choose_decomp' % driver[0], [drv, be.g])
+    if not (isinstance(dec, tuple) and len(dec) == 3 and dec[0] == 'ctor'):
+        raise minirust.NoEval('the driver chose %r' % (dec,))
+    it = interp(facts, 3000000)
+    it.self_ty.append(ty)
+    terms = it.local_call('decompose::apply_decomp', [be.g, dec])
+    if not isinstance(terms, list) or not terms:
+        raise minirust.NoEval('apply_decomp returned %r' % (terms,))
+    if read(be).show() != before.show():
+        return str(dec[1]).rsplit('::', 1)[-1], len(terms), 'the step changes the diagram it decomposes'
+    tds = [read(Backend(facts, ty, t)) for t in terms]
+    for td in tds:
+        if len(td.outputs) != len(before.outputs) or len(td.inputs) != len(before.inputs):
+            return str(dec[1]).rsplit('::', 1)[-1], len(terms), 'a term has %d outputs, the diagram %d' % (len(td.outputs), len(before.outputs))
+    t0, t1 = tensor(before, {}), tensor_sum(tds, {})
+    msg = '' if t0 == t1 else 'the %d terms sum to %s, the diagram denotes %s (chosen: %s%s)' % (len(terms), _showt(t1), _showt(t0), str(dec[1]).rsplit('::', 1)[-1], list(dec[2][0]))
+    return str(dec[1]).rsplit('::', 1)[-1], len(terms), msg
+
+
+def _decomp_job(job):
+    name, ty, stride, offset, sub = job
+    facts = _G['facts']
+    st = {'diagrams': 0, 'steps': 0, 'declined': 0, 'per_decomp': {}}
+    bad, declined = [], {}
+    for i, (d, _c, _o) in enumerate(x for j, x in enumerate(FAMILIES[name]()) if j % sub[0] == sub[1]):
+        if i % stride != offset:
+            continue
+        st['diagrams'] += 1
+        for drv in _G['drivers']:
+            try:
+                try:
+                    which, n, msg = decomp_step(facts, ty, d, drv)
+                except minirust.Panics as ex:
+                    bad.append((drv[0], d.show(), (), 'panics: %s' % ex))
+                    continue
+                st['steps'] += 1
+                st['per_decomp'][which] = st['per_decomp'].get(which, 0) + 1
+                if msg:
+                    bad.append((drv[0], d.show(), (), msg))
+            except minirust.NoEval as ex:
+                st['declined'] += 1
+                declined.setdefault(str(ex)[:80], (drv[0], d.show()))
+    st['declined_reasons'] = declined
+    return name, ty, st, bad[:50]
+
+
+def run_decomps(facts, plan, drivers=None, procs=8):
+    _G['facts'], _G['drivers'] = facts, list(drivers or DRIVERS)
+    jobs = [(name, ty, procs, off, (every, 0)) for name, ty, every in plan for off in range(procs)]
+    pool = None
+    if procs > 1:
+        try:
+            import multiprocessing
+            pool = multiprocessing.get_context('fork').Pool(procs)
+        except Exception:
+            pool = None
+    try:
+        results = pool.map(_decomp_job, jobs, chunksize=1) if pool is not None else [_decomp_job(j) for j in jobs]
+    finally:
+        if pool is not None:
+            pool.terminate()
+            pool.join()
+    tot = {'diagrams': 0, 'steps': 0, 'declined': 0, 'per_decomp': {}}
+    bad, declined = [], {}
+    for name, ty, st, b in results:
+        for k in ('diagrams', 'steps', 'declined'):
+            tot[k] += st[k]
+        for r, n in st['per_decomp'].items():
+            tot['per_decomp'][r] = tot['per_decomp'].get(r, 0) + n
+        bad.extend((name, ty) + tuple(x) for x in b)
+        for k, v in st['declined_reasons'].items():
+            declined.setdefault(k, v)
+    return tot, bad, declined
+
+
+def oracle_controls():
+    """(the fast contraction equals the reference contraction on every 211th member of every family under every assignment;
+        the oracle accepts a true identity — two fused spiders — and tells apart a wrong phase, a flipped edge type and a negated scalar)"""
+    agree, n = True, 0
+    for name in sorted(FAMILIES):
+        for i, (d, _c, _o) in enumerate(FAMILIES[name]()):
+            if i % 211:
+                continue
+            vs = d.variables()
+            for bits in itertools.product((0, 1), repeat=len(vs)):
+                sg = dict(zip(vs, bits))
+                n += 1
+                if tensor(d, sg) != tensor_slow(d, sg):
+                    agree = False
+    two = D({'i': ('B', 0, ()), 'a': ('Z', Fr(1, 4), (0,)), 'b': ('Z', Fr(1, 2), ()), 'o': ('B', 0, ())}, {('i', 'a'): 'N', ('a', 'b'): 'N', ('b', 'o'): 'H'}, ['i'], ['o'])
+    one = D({'i': ('B', 0, ()), 'a': ('Z', Fr(3, 4), (0,)), 'o': ('B', 0, ())}, {('i', 'a'): 'N', ('a', 'o'): 'H'}, ['i'], ['o'])
+    wrong_phase = D({'i': ('B', 0, ()), 'a': ('Z', Fr(1, 2), (0,)), 'o': ('B', 0, ())}, {('i', 'a'): 'N', ('a', 'o'): 'H'}, ['i'], ['o'])
+    wrong_edge = D({'i': ('B', 0, ()), 'a': ('Z', Fr(3, 4), (0,)), 'o': ('B', 0, ())}, {('i', 'a'): 'N', ('a', 'o'): 'N'}, ['i'], ['o'])
+    wrong_scalar = D({'i': ('B', 0, ()), 'a': ('Z', Fr(3, 4), (0,)), 'o': ('B', 0, ())}, {('i', 'a'): 'N', ('a', 'o'): 'H'}, ['i'], ['o'], scalar=-Q1)
+    no_var = D({'i': ('B', 0, ()), 'a': ('Z', Fr(3, 4), ()), 'o': ('B', 0, ())}, {('i', 'a'): 'N', ('a', 'o'): 'H'}, ['i'], ['o'])
+    apart = same_map(two, one, None, None) == '' and all(same_map(two, w, None, None) != '' for w in (wrong_phase, wrong_edge, wrong_scalar, no_var))
+    return agree and n > 20, apart
